@@ -15,7 +15,7 @@ package main
 //	y:<hex>   bytes
 //	i<dec>    int (py.Int when it fits int64, else *py.BigInt)
 //	n         None          t0/t1 bool        f<16 hex digits> float bits
-//	T<k> v1 .. vk   tuple   L<k> v1 .. vk   list
+//	T<k> v1 .. vk   tuple   L<k> v1 .. vk   list   S <start> <stop> <step>   slice object
 //
 // Output V: the same encoding (lists as `[a,b]`, tuples as `(a,b)`), `E:<Class>` for exceptions and
 // `PANIC` for a Go panic.
@@ -99,6 +99,11 @@ func (r *c14Reader) value() py.Object {
 			bs = append(bs, byte(v))
 		}
 		return py.Bytes(bs)
+	case t == "S":
+		start := r.value()
+		stop := r.value()
+		step := r.value()
+		return py.NewSlice(start, stop, step)
 	case t == "n":
 		return py.None
 	case t == "t0":
